@@ -7,6 +7,9 @@ props = [json.loads(l) for l in open(os.path.join(ROOT, 'properties.jsonl'))]
 
 # id -> (technique, level text, level note, design ref)
 CHECKS = {
+ 'C07': ('runtime monitor: contract lifecycle state machine over the diff stream + revision-law fault injection + storage-proof differential against a naive Merkle prover in every era through real blocks',
+         'Lifecycle monitor on generated histories (created -> revised* -> resolved once; payout outputs compared with the latest accepted revision per resolution kind, maturity, renewal split, revision laws) plus illegal revisions injected into accepted blocks (must be rejected); storage-proof differential: for files of every size class in the three v1 eras and under v2 the naive model\'s honest proof of the independently recomputed challenge must be accepted in a real block and ~12 corruptions per contract must be rejected; rhp/v2 BuildProof+ConvertProofOrdering cross-checked as second prover.',
+         'Trusted: naive RFC-6962 Merkle model over zero-padded 64-byte segments; math/big challenge derivation; ID derivations via the library (C12\'s subject). Empty files have no leaf: no completeness/soundness demanded.', '§5 C07'),
  'C04': ('runtime monitor: membership oracle over generated histories - live elements vs single-field/proof mutants, spent, reverted-branch and fabricated elements, through all three library routes',
          'On generated chains with reorgs, samples of live elements of every kind must pass ValidateTransactionElements, a fully signed ValidateV2Transaction spend/expiration and ValidateBlock\'s supplement check; every single-field mutation of contents, leaf index and proof (incl. another element\'s proof/position, shortened/lengthened proofs), spent/resolved elements with proofs maintained by the store, elements remembered from reverted branches and fabricated elements must be rejected by each route. Complemented by C05\'s naive-forest comparison.',
          'Trusted: the carrier block of the supplement route; the re-signed spend of the transaction route.', '§5 C04'),
